@@ -116,6 +116,25 @@ Proof.
 Qed.
 Print Assumptions C12_close_empties.
 
+(* a channel endpoint error on the subscriptions' channel status indicator: every image of every still registered subscription is
+   closed and reported unavailable (once: C12_unavailable_at_most_once), afterwards every subscription is empty and forgotten by
+   the conductor - so a later announcement for it changes nothing at all (C12_available_ignored applies); the client stays open *)
+Theorem C12_chan_error_empties : forall s now o, Inv s -> In o (subs (chan_err s now)) -> so_imgs o = [] /\ so_inmap o = false.
+Proof.
+  intros s now o HI Ho. pose proof (Inv_chan s now HI) as (_ & _ & C & D & _).
+  assert (Hi : so_inmap o = false).
+  { unfold chan_err in Ho. cbn in Ho. apply in_map_iff in Ho. destruct Ho as (b & Hb & Hin). subst. unfold chan_sub.
+    destruct (closing b) eqn:Ecl; [reflexivity|]. unfold closing in Ecl. destruct (so_inmap b) eqn:Ei; [|reflexivity].
+    cbn [andb] in Ecl. destruct (so_closed b) eqn:Ec; [|discriminate]. destruct HI as (_ & _ & _ & D0 & _). rewrite (D0 b Hin Ec) in Ei. discriminate. }
+  split; [apply C; assumption|exact Hi].
+Qed.
+Print Assumptions C12_chan_error_empties.
+Theorem C12_chan_error_reports_all : forall s now,
+  cblog (chan_err s now) = cblog s ++ closing_cbs (subs s) /\
+  closed_oids (chan_err s now) = closed_oids s ++ map i_oid (closing_imgs (subs s)) /\ cclosed (chan_err s now) = cclosed s.
+Proof. intros. repeat split; reflexivity. Qed.
+Print Assumptions C12_chan_error_reports_all.
+
 (* Mapped while in use: in every reachable state a log that is referenced (an image in a list, a lingering list,
    a kept clone, a publication) is registered, i.e. mapped, and its entry carries no "unreferenced since" stamp *)
 Theorem C12_mapped_while_in_use : forall s k, RInv s -> in_use_P s k ->
@@ -187,6 +206,26 @@ Example C12_ex_ring_full :
      OStep (Ok 0) [] [(6, [])] [0; 1; 2] []; OStep (Ok 0) [] [(6, [])] [0; 1; 2] []; OStep (Ok 0) [] [(6, [])] [2] [];
      OStep (Ok 0) [] [(6, [])] [2] []; OStep (Ok 0) [] [(6, [])] [2] []; OStep (Ok 0) [] [(6, [])] [] []].
 Proof. vm_compute. reflexivity. Qed.
+
+(* a channel endpoint error: the subscription with two images has both reported and is forgotten, the one without images is
+   forgotten as well - the announcements that follow are ignored for both; a new subscription works; the kept clone of image 1000 is closed *)
+Example C12_ex_chan_error :
+  run Debug 5000 (init 100000 0)
+    [Subscribe 100000; Subscribe 100000; Avail 100100 1000 1 0; Avail 100100 1001 1 1; Hold 1 0; ChanErr 100200; Avail 100300 1002 2 2; Avail 100300 1003 1 2;
+     Subscribe 100400; Avail 100500 1004 3 3; Tick 106000; Tick 112000]
+  = [OStep (Ok 1) [] [(1, [])] [] []; OStep (Ok 2) [] [(1, []); (2, [])] [] []; OStep (Ok 0) [(1, 1, 1000, 0)] [(1, [(1000, 0)]); (2, [])] [0] [];
+     OStep (Ok 0) [(1, 1, 1001, 0)] [(1, [(1000, 0); (1001, 0)]); (2, [])] [0; 1] []; OStep (Ok 0) [] [(1, [(1000, 0); (1001, 0)]); (2, [])] [0; 1] [0];
+     OStep (Ok 0) [(2, 1, 1000, 1); (2, 1, 1001, 1)] [(1, []); (2, [])] [0; 1] [1]; OStep (Ok 0) [] [(1, []); (2, [])] [0; 1] [1];
+     OStep (Ok 0) [] [(1, []); (2, [])] [0; 1] [1]; OStep (Ok 3) [] [(1, []); (2, []); (3, [])] [0; 1] [1];
+     OStep (Ok 0) [(1, 3, 1004, 0)] [(1, []); (2, []); (3, [(1004, 0)])] [0; 1; 3] [1]; OStep (Ok 0) [] [(1, []); (2, []); (3, [(1004, 0)])] [0; 1; 3] [1];
+     OStep (Ok 0) [] [(1, []); (2, []); (3, [(1004, 0)])] [0; 1; 3] [1]]
+  /\ holds_run 5000 100000
+       [Subscribe 100000; Avail 100100 1000 1 0; ChanErr 100200; Avail 100300 1002 1 2]
+       (run Debug 5000 (init 100000 0) [Subscribe 100000; Avail 100100 1000 1 0; ChanErr 100200; Avail 100300 1002 1 2]) = true
+  (* the monitor rejects an announcement that is still delivered after the error (seed C12c-n4) *)
+  /\ holds_run 5000 100000 [Subscribe 100000; ChanErr 100200; Avail 100300 1002 1 2]
+       [OStep (Ok 1) [] [(1, [])] [] []; OStep (Ok 0) [] [(1, [])] [] []; OStep (Ok 0) [(1, 1, 1002, 0)] [(1, [(1002, 0)])] [2] []] = false.
+Proof. repeat split; vm_compute; reflexivity. Qed.
 
 (* the hypotheses of C12_linger / C12_linger_release are met by concrete states, and the monitor rejects a wrong trace *)
 Example C12_ex_hypotheses :
